@@ -1,4 +1,5 @@
-import BSModel.Proofs.Depth
+import BSModel.Proofs.DepthEvents
+import BSModel.Gen.C11Tables
 /-! # C11 — working with a tree never recurses on its depth            (PARTIAL: interpreter stack measured)
 
 Property theorems only. **These are theorems about an accounting of the code's call graph** (`Model/Depth.lean`: a
@@ -29,16 +30,16 @@ open BS.Depth
     parse is at most 14: `preserve_whitespace_tag_stack` and
     `string_container_stack` are always the tag stack filtered by name (`Inv`), so the popped tag is either the very
     object on top of a side stack or has a different name — `Tag.__eq__` returns from one of its first two exits. -/
-theorem depth_bounded_parse (nm : Names) (h0 : nm.outermostOnly = false) (deep : Nat) (evs : List Ev) :
+theorem depth_bounded_parse (nm : Names) (h0 : nm.outermostOnly = false) (hE : nm.scElif = false) (deep : Nat) (evs : List Ev) :
     parseDepth nm deep evs ≤ 14 := by
-  have := feedDepth_le nm h0 deep evs
+  have := feedDepth_le nm h0 hE deep evs
   simp only [parseDepth, call]; omega
 
 /-- nested `<pre>` inside `<pre>` with text after each: both side-stack comparisons are exercised -/
 def preNames : Names := { isPre := fun n => n == 6, isSc := fun n => n == 7 }
 example : parseDepth preNames 1000000 [.open 6 false, .open 6 false, .open 1 false, .close 1, .text, .close 6, .text, .close 6] = 14 := by
   decide
-example : parseDepth preNames 1000000 [.open 6 false, .open 7 false, .open 3 true, .close 6] ≤ 14 := depth_bounded_parse _ rfl _ _
+example : parseDepth preNames 1000000 [.open 6 false, .open 7 false, .open 3 true, .close 6] ≤ 14 := depth_bounded_parse _ rfl rfl _ _
 
 /-- The bound DEPENDS on `pushTag` pushing every whitespace-preserving tag: with the (tree-preserving) policy "only
     the outermost one is pushed", an inner `<pre>` is popped while the outer `<pre>` is on top of the side stack — two
@@ -52,7 +53,57 @@ theorem parse_unbounded_if_only_outermost_pushed (deep : Nat) :
     endDataDepth, loop0, loopMax, call, cTokenizer, cTagInit]
   omega
 
-/-! ## 2. rendering -/
+/-! ## 2. `_event_stream`: the loop with its tag stack is the recursive skeleton, and what it compares is known -/
+
+/-- **Refinement of the anchor.** The statement-by-statement mirror of `_event_stream` (element.py:2480-2504: a `for`
+    over `self_and_descendants` in document order, the `while tag_stack and c.parent <cmp> tag_stack[-1]` pop loop, the
+    START/EMPTY/STRING cases, the final flush) yields, for EVERY tree and both variants of the test, exactly the
+    recursive skeleton: START, the children's events in order, END — EMPTY for an empty-element tag, STRING for a
+    string. (Identities are positions in document order; the correspondence runs the real generator on random bushy
+    trees against both sides.) -/
+theorem event_stream_refines_skeleton (cfg : Cfg) (t : Node) : (eventStreamImpl cfg t).1 = evSpecN 0 t :=
+  eventStreamImpl_events cfg t
+
+/-- The deepest comparison the loop makes is the recursive characterisation `evCmp` that the accountings of decode,
+    deepcopy and pickle are built on: when the child after `k` arrives, `c.parent` is compared with every tag `k`
+    left open on the stack (its right spine, deepest first: different objects) and then with itself. -/
+theorem event_stream_deepest_comparison (cfg : Cfg) (t : Node) : (eventStreamImpl cfg t).2 = evCmp cfg t :=
+  eventStreamImpl_cost cfg t
+
+/-- The same for the form in which the receiver itself is not iterated over (`decode_contents`, `__deepcopy__`, and
+    any hidden receiver — the BeautifulSoup object, which `_self_and` leaves out): the receiver is never on the stack. -/
+theorem event_stream_contents_refines (cfg : Cfg) (t : Node) :
+    (eventStreamContentsImpl cfg t).1 = evSpecL 1 (kidsOf t) ∧ (eventStreamContentsImpl cfg t).2 = evCmpContents cfg t :=
+  eventStreamContentsImpl_spec cfg t
+
+/-- With the identity test the loop makes no call at all, whatever the tree. -/
+theorem event_stream_identity_makes_no_call (cfg : Cfg) (h : cfg.neIdentity = true) (t : Node) :
+    (eventStreamImpl cfg t).2 = 0 ∧ (eventStreamContentsImpl cfg t).2 = 0 := by
+  rw [eventStreamImpl_cost, (eventStreamContentsImpl_spec cfg t).2, evCmp_id cfg h]
+  exact ⟨rfl, by simp [evCmpContents, evKidsTop_id cfg h]⟩
+
+/-- Two structurally equal trees have the same size: on the pairs `_event_stream` compares (an element's parent and a
+    tag still open below it — one properly contains the other) the structural `!=` and `is not` give the same
+    answer, so both variants yield the same events; they differ only in what the test costs. -/
+theorem structural_equality_forces_equal_size (a b : Node) (h : beqN a b = true) : sizeN a = sizeN b :=
+  beqN_sizeN a b h
+
+example : beqN (chainWithTrailingText 3) (chainWithTrailingText 3) = true ∧ beqN (chainWithTrailingText 3) (chainWithTrailingText 2) = false := by
+  decide
+
+/-- `<a>t<b><br/></b><p>x</p></a>`: a void tag, a tag left open when its sibling arrives -/
+def demoTree : Node :=
+  .tag 1 0 true false [.str 2, .tag 2 0 true false [.tag 3 0 true true []], .tag 5 0 true false [.str 1]]
+example : (eventStreamImpl unrepaired demoTree).1 =
+    [.start 0, .string 1, .start 2, .empty 3, .end 2, .start 4, .string 5, .end 4, .end 0] := by decide
+example : (eventStreamImpl unrepaired demoTree).2 = 2 ∧ (eventStreamImpl repaired demoTree).2 = 0 := by decide
+example : (eventStreamContentsImpl repaired demoTree).1 =
+    [.string 1, .start 2, .empty 3, .end 2, .start 4, .string 5, .end 4] := by decide
+
+example : (eventStreamImpl repaired (chainWithTrailingSibling 4)).2 = 0 := (event_stream_identity_makes_no_call repaired rfl _).1
+example : (eventStreamImpl unrepaired (chainWithTrailingSibling 4)).2 = 8 := by decide
+
+/-! ## 2b. rendering -/
 
 /-- `Tag.decode` with the identity test in `_event_stream` and the loop form of `_is_xml`: at most 6, for every tree,
     every receiver in it and every ancestor context. -/
@@ -71,6 +122,10 @@ theorem depth_bounded_render (cfg : Cfg) (h1 : cfg.neIdentity = true) (h2 : cfg.
     encodeDepth cfg l ≤ 7 ∧ prettifyDepth cfg l ≤ 8 ∧ strDepth cfg l ≤ 7 ∧ hashDepth cfg l ≤ 8 ∧
     decodeContentsDepth cfg l ≤ 7 ∧ encodeContentsDepth cfg l ≤ 8 ∧ docDecodeDepth cfg l ≤ 7 := by
   have := depth_bounded_decode cfg h1 h2 l
+  have hb : decodeBodyDepth cfg l ≤ 6 := by
+    have h := loopMax_le (descs l.anc l.node) renderPiece 5 (fun x _ => renderPiece_le x)
+    simp only [decodeBodyDepth, formatterForNameDepth, isXmlDepth_loop cfg h2, eventStreamContentsDepth_id cfg h1, call]
+    omega
   simp only [encodeDepth, prettifyDepth, strDepth, hashDepth, decodeContentsDepth, encodeContentsDepth, docDecodeDepth, call]
   omega
 
@@ -84,7 +139,7 @@ theorem depth_bounded_deepcopy (cfg : Cfg) (h1 : cfg.neIdentity = true) (h2 : cf
     deepcopyDepth cfg isDoc l ≤ 16 := by
   have ha := copySelfDepth_le cfg h2 isDoc l
   have hb := loopMax_le (descs l.anc l.node) (deepcopyPiece cfg) 15 (fun d _ => deepcopyPiece_le cfg h2 d)
-  simp only [deepcopyDepth, eventStreamDepth_id cfg h1, call]
+  simp only [deepcopyDepth, eventStreamContentsDepth_id cfg h1, call]
   omega
 
 /-- `copy.copy(x)` → `__copy__` → `__deepcopy__` -/
@@ -98,16 +153,90 @@ example : copyDepth repaired true (atTop (chainWithTrailingText 2)) = 17 := by d
 
 /-! ## 4. pickling a document -/
 
-/-- `pickle.dumps(soup)` / `pickle.loads`: `__getstate__` renders, the state dict holds no link into the tree
-    (`dropLinks`) whether or not the root had been linked into the element chain, `__setstate__` re-parses: at most 15. -/
+/-- After a parse — for EVERY event sequence (balanced or not, tags left open at the end of input included) and EVERY
+    pair of builder tables (a name may be whitespace-preserving AND a string container, or neither) — no parser
+    attribute of the document object references a tree object: `tagStack` is back to the document itself and both
+    side stacks are empty. (`popTag` tests the two side stacks independently; `_feed` closes everything.) -/
+theorem after_parse_no_tree_object (nm : Names) (h0 : nm.outermostOnly = false) (hE : nm.scElif = false) (deep : Nat)
+    (evs : List Ev) : leftover (feedState nm deep evs) = [] :=
+  feedState_clean nm h0 hE deep evs
+
+/-- a name (12) that is in both tables, closed and left open -/
+def bothNames : Names := { isPre := fun n => n == 12 || n == 6, isSc := fun n => n == 12 || n == 7 }
+/-- the same tables with the `elif` form of `popTag` -/
+def bothNamesElif : Names := { isPre := fun n => n == 12 || n == 6, isSc := fun n => n == 12 || n == 7, scElif := true }
+example : leftover (feedState bothNames 5 [.open 2 false, .open 12 false, .text, .close 12, .open 12 false, .text]) = [] := by decide
+example : (run bothNames 5 initState [.open 2 false, .open 12 false, .text]).1.sc.length = 1 := by decide
+
+/-- Hence the state `__getstate__` hands to pickle contains no tree object, linked root or not: the parser stacks are
+    empty and the root's links are dropped. -/
+theorem pickled_state_has_no_tree_object (cfg : Cfg) (h3 : cfg.dropLinks = true) (nm : Names) (h0 : nm.outermostOnly = false)
+    (hE : nm.scElif = false) (deep : Nat) (evs : List Ev) (rootLinked : Bool) :
+    stateRefs cfg rootLinked (feedState nm deep evs) = 0 := by
+  have h := congrArg List.length (feedState_clean nm h0 hE deep evs)
+  simp only [leftover, List.length_append, List.length_nil] at h
+  have hs : (feedState nm deep evs).stack.length = 0 := by omega
+  have hp : (feedState nm deep evs).pre.length = 0 := by omega
+  have hc : (feedState nm deep evs).sc.length = 0 := by omega
+  rw [stateRefs_eq, hs, hp, hc]; simp [h3]
+
+example : stateRefs repaired true (feedState bothNames 3 [.open 12 false, .open 6 false, .text]) = 0 :=
+  pickled_state_has_no_tree_object repaired rfl bothNames rfl rfl 3 _ true
+example : stateRefs unrepaired true (feedState bothNames 3 [.open 12 false, .open 6 false, .text]) = 1 := by decide
+
+/-- Field by field: the mirror of `__getstate__` (copy of `__dict__`, `contents := []`, `markup := decode()`, the four
+    links := None, `_most_recent_element` deleted) applied to the `__dict__` of a parsed (and then arbitrarily edited,
+    linked or not) document returns a dict in which NO field holds a tree object. -/
+theorem getstate_fields_hold_no_tree_object (cfg : Cfg) (h3 : cfg.dropLinks = true) (nm : Names) (h0 : nm.outermostOnly = false)
+    (hE : nm.scElif = false) (deep : Nat) (evs : List Ev) (hasKids rootLinked mostRecent : Bool) :
+    ∀ f ∈ getstateImpl cfg (soupDict (feedState nm deep evs) hasKids rootLinked mostRecent), ∀ k, f.val ≠ .tree k := by
+  have h := congrArg List.length (feedState_clean nm h0 hE deep evs)
+  simp only [leftover, List.length_append, List.length_nil] at h
+  have hs : (feedState nm deep evs).stack.length = 0 := by omega
+  have hp : (feedState nm deep evs).pre.length = 0 := by omega
+  have hc : (feedState nm deep evs).sc.length = 0 := by omega
+  intro f hf k
+  simp only [getstateImpl, soupDict, h3, hs, hp, hc, Val.ofRefs] at hf
+  cases hasKids <;> cases rootLinked <;> cases mostRecent <;> simp at hf <;>
+    (rcases hf with hf | hf | hf | hf | hf | hf | hf | hf | hf | hf | hf | hf | hf | hf <;> subst hf <;> simp)
+
+example : getstateImpl repaired (soupDict (feedState bothNames 9 [.open 12 false, .text, .close 12, .open 2 false]) true true true) ≠ [] := by
+  decide
+/-- before `__getstate__` the same dict does hold tree objects (`contents`, `next_element`, `_most_recent_element`) -/
+example : dictRefs (soupDict (feedState bothNames 9 [.open 12 false, .text, .close 12]) true true true) = 3 := by decide
+
+/-- `pickle.dumps(soup)` / `pickle.loads` of a parsed document (parsed from ANY event sequence under ANY tables, then
+    edited into any tree `l`, root linked or not): `__getstate__` renders, the pickler sees only flat values,
+    `__setstate__` re-parses: at most 15. -/
 theorem depth_bounded_pickle (cfg : Cfg) (h1 : cfg.neIdentity = true) (h2 : cfg.isXmlLoop = true) (h3 : cfg.dropLinks = true)
-    (nm : Names) (h0 : nm.outermostOnly = false) (deep : Nat) (rootLinked : Bool) (l : Loc) : pickleDepth cfg nm deep rootLinked l ≤ 15 := by
+    (nm : Names) (h0 : nm.outermostOnly = false) (hE : nm.scElif = false) (deep : Nat) (evs : List Ev) (rootLinked : Bool) (l : Loc) :
+    pickleDepth cfg nm deep rootLinked (feedState nm deep evs) l ≤ 15 := by
   have ha := (depth_bounded_render cfg h1 h2 l).2.2.2.2.2.2
-  have hb := feedDepth_le nm h0 deep (toEventsL (kidsOf l.node))
-  simp only [pickleDepth, picklerWalk, h3, Bool.not_true, Bool.and_false, Bool.false_eq_true, ↓reduceIte, call]
+  have hb := feedDepth_le nm h0 hE deep (toEventsL (kidsOf l.node))
+  simp only [pickleDepth, picklerWalk, pickled_state_has_no_tree_object cfg h3 nm h0 hE deep evs rootLinked, ↓reduceIte, call]
   omega
 
-example : pickleDepth repaired preNames 1000 true (atTop (chainWithTrailingText 3)) ≤ 15 := depth_bounded_pickle _ rfl rfl rfl _ rfl _ _ _
+example : pickleDepth repaired bothNames 1000 true (feedState bothNames 1000 [.open 12 false, .text, .close 12, .open 2 false])
+    (atTop (chainWithTrailingText 3)) ≤ 15 := depth_bounded_pickle _ rfl rfl rfl _ rfl rfl _ _ _ _
+
+/-- The bound DEPENDS on `popTag` testing the two side stacks independently: with `elif` (pop the string-container
+    stack only when the whitespace stack was not popped) a tag that is in both tables stays on
+    `string_container_stack` after the parse, `__getstate__` hands it to pickle, and the pickler walks the whole
+    document from it — whatever the document's shape. (The harness parses under such tables and inspects the real
+    `__getstate__()` for tree objects.) -/
+theorem pickle_unbounded_if_container_pop_is_elif (cfg : Cfg) (deep : Nat) (rootLinked : Bool) (l : Loc) :
+    sizeN l.node ≤ pickleDepth cfg bothNamesElif deep rootLinked
+      (feedState bothNamesElif deep [.open 12 false, .text, .close 12]) l := by
+  have hl : (feedState bothNamesElif deep [.open 12 false, .text, .close 12]).sc.length = 1 := by
+    simp [feedState, run, step, pushTag, popToTag, popTo, popTag, popEqPops, closeAll, initState, bothNamesElif]
+  have h : stateRefs cfg rootLinked (feedState bothNamesElif deep [.open 12 false, .text, .close 12]) ≠ 0 := by
+    rw [stateRefs_eq, hl]; omega
+  simp only [pickleDepth, picklerWalk, h, ↓reduceIte, call]
+  omega
+
+example : 6 ≤ pickleDepth repaired bothNamesElif 0 false
+    (feedState bothNamesElif 0 [.open 12 false, .text, .close 12]) (atTop (chainWithTrailingText 5)) :=
+  Nat.le_trans (sizeN_chainTT 5) (pickle_unbounded_if_container_pop_is_elif repaired 0 false (atTop (chainWithTrailingText 5)))
 
 /-! ## 5. text extraction and `.string` -/
 
@@ -131,6 +260,29 @@ theorem depth_bounded_find_all (cfg : Cfg) (h : cfg.stringLoop = true) (q : Quer
   have := searchDepth_le cfg h q (descGenDepth l) (by rw [descGenDepth_eq]; exact Nat.le_refl 2) ((descs l.anc l.node).map (·.node))
   simp only [getattrFindDepth, findDepth, findAllDepth, call]; omega
 
+/-- The `.string` getter is the ONLY tree-dependent call in matching, and it is made exactly for the elements that
+    pass every earlier exit of `matches_tag` (`reachesString`; the correspondence counts the real reads of the
+    property): for any other element the cost of matching does not depend on the variant of the getter at all, for
+    those it is the getter's. -/
+theorem matching_reads_string_only_where_reached (cfg : Cfg) (q : Query) (t : Node) :
+    (reachesString q t = false → matchesTagDepth cfg q t ≤ 5) ∧
+    (reachesString q t = true → matchesTagDepth cfg q t = call (max (call cRuleMatch) (max (stringDepth cfg t) (call cRuleMatch)))) := by
+  cases t with
+  | str v => simp [reachesString, matchesTagDepth]
+  | tag n a kx v ks =>
+    simp only [reachesString, matchesTagDepth, call, cRuleMatch]
+    constructor
+    · intro h
+      repeat' split
+      all_goals first | omega | simp_all
+    · intro h
+      repeat' split
+      all_goals first | rfl | simp_all
+
+example : stringReads ⟨some 1, false, false, none, true⟩ demoTree = [] ∧
+    stringReads ⟨none, true, true, none, true⟩ demoTree = [2, 3, 4] ∧
+    stringReads ⟨some 5, false, false, none, true⟩ demoTree = [4] := by decide
+
 /-- the other axes (`find_parents`, `find_all_next`, `find_all_previous`, `find_next_siblings`,
     `find_previous_siblings`, singular forms): for ANY list of visited elements -/
 theorem depth_bounded_find_axis (cfg : Cfg) (h : cfg.stringLoop = true) (q : Query) (vis : List Node) :
@@ -141,38 +293,62 @@ theorem depth_bounded_find_axis (cfg : Cfg) (h : cfg.stringLoop = true) (q : Que
 example : findAllDepth repaired ⟨some 1, false, false, none, true⟩ (atTop (pureChain 6)) = 10 := by decide
 example : findAxisDepth repaired ⟨none, true, true, some 0, true⟩ [pureChain 4, pureChain 3, .str 1] ≤ 11 := depth_bounded_find_axis _ rfl _ _
 
-/-! ## 7. editing -/
+/-! ## 7. editing
+
+    `ts` is what one "are these two elements the same object?" test costs (`index`, `replace_with`, `insert_before`/
+    `insert_after`, `_insert`); the code uses `is` — `idTest`, a `FreeTest`. -/
 
 /-- `index`, `extract`, `decompose`, `clear` (both forms) -/
-theorem depth_bounded_remove (l : Loc) (dec : Bool) :
-    indexDepth l.sibs ≤ 1 ∧ extractDepth l ≤ 2 ∧ decomposeDepth l ≤ 3 ∧ clearDepth l dec ≤ 4 := by
-  have h := loopMax_le (kidLocs l) (fun k => if dec then decomposeDepth k else extractDepth k) 3
-    (fun k _ => by simp only [decomposeDepth_eq, extractDepth_eq]; split <;> omega)
-  simp only [indexDepth_eq, extractDepth_eq, decomposeDepth_eq, clearDepth, call] at h ⊢
+theorem depth_bounded_remove (ts : Test) (hT : FreeTest ts) (l : Loc) (dec : Bool) :
+    indexDepth ts l.sibs l.node ≤ 1 ∧ extractDepth ts l ≤ 2 ∧ decomposeDepth ts l ≤ 3 ∧ clearDepth ts l dec ≤ 4 := by
+  have h := loopMax_le (kidLocs l) (fun k => if dec then decomposeDepth ts k else extractDepth ts k) 3
+    (fun k _ => by simp only [decomposeDepth_eq ts hT, extractDepth_eq ts hT]; split <;> omega)
+  simp only [indexDepth_eq ts hT, extractDepth_eq ts hT, decomposeDepth_eq ts hT, clearDepth, call] at h ⊢
   omega
 
 /-- `insert` (any number of arguments, also a BeautifulSoup object), `append`, `extend` -/
-theorem depth_bounded_insert (l : Loc) (args : List Loc) (a : Loc) (isDoc : Bool) :
-    insertDepth l args isDoc ≤ 7 ∧ appendDepth l a isDoc ≤ 8 ∧ extendDepth l args ≤ 9 := by
-  have h := loopMax_le args (fun a => appendDepth l a false) 8 (fun a _ => appendDepth_le l a false)
-  refine ⟨insertDepth_le l args isDoc, appendDepth_le l a isDoc, ?_⟩
+theorem depth_bounded_insert (ts : Test) (hT : FreeTest ts) (l : Loc) (args : List Loc) (a : Loc) (isDoc : Bool) :
+    insertDepth ts l args isDoc ≤ 7 ∧ appendDepth ts l a isDoc ≤ 8 ∧ extendDepth ts l args ≤ 9 := by
+  have h := loopMax_le args (fun a => appendDepth ts l a false) 8 (fun a _ => appendDepth_le ts hT l a false)
+  refine ⟨insertDepth_le ts hT l args isDoc, appendDepth_le ts hT l a isDoc, ?_⟩
   simp only [extendDepth, call]; omega
 
 /-- `replace_with`, `wrap`, `unwrap`, `insert_before` / `insert_after`, the `string` setter -/
-theorem depth_bounded_replace (parent l wrapper : Loc) (args : List Loc) :
-    replaceWithDepth parent l args ≤ 8 ∧ wrapDepth parent l wrapper ≤ 9 ∧ unwrapDepth parent l ≤ 8 ∧
-    insertBesideDepth parent l args ≤ 8 ∧ stringSetDepth l ≤ 9 := by
-  have h1 := replaceWithDepth_le parent l args
-  have h2 := replaceWithDepth_le parent l [wrapper]
-  have h3 := appendDepth_le wrapper l false
-  have h4 := loopMax_le (kidsOf l.node) (fun k => insertDepth parent [⟨parent.anc, [], k⟩] false) 7
-    (fun k _ => insertDepth_le parent _ false)
-  have h5 := loopMax_le args (fun a => max (extractDepth a) (max (indexDepth l.sibs) (insertDepth parent [a] false))) 7
-    (fun a _ => by have := insertDepth_le parent [a] false; simp only [extractDepth_eq, indexDepth_eq]; omega)
-  have h6 := (depth_bounded_remove l false).2.2.2
-  have h7 := appendDepth_le l ⟨[], [], .str 0⟩ false
-  simp only [wrapDepth, unwrapDepth, insertBesideDepth, stringSetDepth, indexDepth_eq, extractDepth_eq, call, cStrNew] at h5 ⊢
+theorem depth_bounded_replace (ts : Test) (hT : FreeTest ts) (parent l wrapper : Loc) (args : List Loc) :
+    replaceWithDepth ts parent l args ≤ 8 ∧ wrapDepth ts parent l wrapper ≤ 9 ∧ unwrapDepth ts parent l ≤ 8 ∧
+    insertBesideDepth ts parent l args ≤ 8 ∧ stringSetDepth ts l ≤ 9 := by
+  have h1 := replaceWithDepth_le ts hT parent l args
+  have h2 := replaceWithDepth_le ts hT parent l [wrapper]
+  have h3 := appendDepth_le ts hT wrapper l false
+  have h4 := loopMax_le (kidsOf l.node) (fun k => insertDepth ts parent [⟨parent.anc, [], k⟩] false) 7
+    (fun k _ => insertDepth_le ts hT parent _ false)
+  have h5 := loopMax_le args (fun a => max (extractDepth ts a) (max (indexDepth ts l.sibs l.node) (insertDepth ts parent [a] false))) 7
+    (fun a _ => by have := insertDepth_le ts hT parent [a] false; simp only [extractDepth_eq ts hT, indexDepth_eq ts hT]; omega)
+  have h6 := (depth_bounded_remove ts hT l false).2.2.2
+  have h7 := appendDepth_le ts hT l ⟨[], [], .str 0⟩ false
+  have h8 : loopMax args (fun a => ts a.node l.node) = 0 := loopMax_zero _ _ (fun a _ => hT _ _)
+  simp only [wrapDepth, unwrapDepth, insertBesideDepth, stringSetDepth, indexDepth_eq ts hT, extractDepth_eq ts hT, call, cStrNew, h8] at h5 ⊢
   omega
+
+example : insertDepth idTest (atTop (pureChain 3)) [atTop (pureChain 9), ⟨[], [], .str 1⟩] true = 7 := by decide
+example : wrapDepth idTest (atTop (pureChain 2)) (atTop (pureChain 5)) (atTop (pureChain 5)) ≤ 9 :=
+  (depth_bounded_replace idTest idTest_free _ _ _ []).2.1
+example : clearDepth idTest (atTop (chainWithTrailingText 4)) true = 4 := by decide
+
+/-- The bounds DEPEND on the tests being identity tests: written with `==`, `replace_with`'s "replacing an element
+    with itself is a no-op" test walks the element and an equal (or nearly equal) copy of it in lock-step — two
+    frames per level — and so does `index` when an earlier sibling looks like the element searched for. (The harness
+    exercises every editing call with near copies of the receiver as arguments and as siblings.) -/
+theorem editing_with_equality_tests_unbounded (n : Nat) (parent : Loc) (anc anc' : List Bool) (sibs sibs' rest : List Node) :
+    2 * n + 1 ≤ replaceWithDepth eqTest parent ⟨anc, sibs, pureChain n⟩ [⟨anc', sibs', pureChain n⟩] ∧
+    2 * n + 1 ≤ indexDepth eqTest (pureChain n :: rest) (pureChain n) := by
+  have h := eqDepth_pureChain_self n
+  constructor
+  · simp only [replaceWithDepth, List.take, loopMax, eqTest, call]; omega
+  · simp only [indexDepth, loopMax, eqTest, call]; omega
+
+example : replaceWithDepth eqTest (atTop (pureChain 1)) (atTop (pureChain 20)) [atTop (pureChain 20)] = 46 := by decide
+example : replaceWithDepth idTest (atTop (pureChain 1)) (atTop (pureChain 20)) [atTop (pureChain 20)] = 6 := by decide
 
 /-- `smooth` iterating over the descendants -/
 theorem depth_bounded_smooth (cfg : Cfg) (h : cfg.smoothLoop = true) (l : Loc) : smoothDepth cfg l ≤ 10 := by
@@ -181,7 +357,7 @@ theorem depth_bounded_smooth (cfg : Cfg) (h : cfg.smoothLoop = true) (l : Loc) :
   simp only [smoothDepth, h, ↓reduceIte, descGenDepth_eq, call] at h1 ⊢
   omega
 
-example : extractDepth (atTop (chainWithTrailingText 9)) = 2 := by decide
+example : extractDepth idTest (atTop (chainWithTrailingText 9)) = 2 := by decide
 example : smoothDepth repaired (atTop (pureChain 5)) ≤ 10 := depth_bounded_smooth _ rfl _
 example : smoothDepth repaired (atTop (pureChain 2)) = 8 := by decide
 
@@ -210,14 +386,15 @@ theorem decodeOld_unbounded_trailing_sibling (cfg : Cfg) (h : cfg.neIdentity = f
     omega
 
 /-- `__deepcopy__` (hence `copy.copy`) and pickling (through `__getstate__` → `decode`) inherit it -/
-theorem deepcopyOld_pickleOld_unbounded (cfg : Cfg) (h : cfg.neIdentity = false) (nm : Names) (deep : Nat) (lk isDoc : Bool) (n : Nat) :
+theorem deepcopyOld_pickleOld_unbounded (cfg : Cfg) (h : cfg.neIdentity = false) (nm : Names) (deep : Nat) (lk isDoc : Bool)
+    (ps : PState) (n : Nat) :
     2 * n ≤ deepcopyDepth cfg isDoc (atTop (chainWithTrailingText n)) ∧
-    2 * n ≤ pickleDepth cfg nm deep lk (atTop (chainWithTrailingText n)) := by
+    2 * n ≤ pickleDepth cfg nm deep lk ps (atTop (chainWithTrailingText n)) := by
   cases n with
   | zero => exact ⟨Nat.zero_le _, Nat.zero_le _⟩
   | succ n =>
-    have := evCmp_chainTT cfg h n
-    simp only [deepcopyDepth, pickleDepth, docDecodeDepth, decodeDepth, eventStreamDepth, atTop, call]
+    have := evCmpContents_chainTT cfg h n
+    simp only [deepcopyDepth, pickleDepth, docDecodeDepth, decodeBodyDepth, eventStreamContentsDepth, atTop, call]
     omega
 
 example : decodeDepth unrepaired (atTop (chainWithTrailingText 5)) = 12 := by decide
@@ -266,16 +443,17 @@ theorem isXmlOld_unbounded (cfg : Cfg) (h : cfg.isXmlLoop = false) (n : Nat) (si
 
 /-- pickling a document whose root is linked into the element chain (after `soup.insert(0, …)`, or a copy) with the
     links left in the state dict: the pickler nests at least once per element of the document, whatever its shape -/
-theorem pickleLinkedOld_unbounded (cfg : Cfg) (h : cfg.dropLinks = false) (nm : Names) (deep : Nat) (l : Loc) :
-    sizeN l.node ≤ pickleDepth cfg nm deep true l := by
-  simp only [pickleDepth, picklerWalk, h, Bool.not_false, Bool.and_self, ↓reduceIte, call]
+theorem pickleLinkedOld_unbounded (cfg : Cfg) (h : cfg.dropLinks = false) (nm : Names) (deep : Nat) (ps : PState) (l : Loc) :
+    sizeN l.node ≤ pickleDepth cfg nm deep true ps l := by
+  have : stateRefs cfg true ps ≠ 0 := by rw [stateRefs_eq]; simp [h]
+  simp only [pickleDepth, picklerWalk, this, ↓reduceIte, call]
   omega
 
 example : stringDepth unrepaired (pureChain 9) = 10 := by decide
 example : 40 ≤ findAllDepth unrepaired ⟨some 1, false, false, none, true⟩ (atTop (pureChain 40)) := findAllStringOld_unbounded _ rfl _
 example : 8 ≤ decodeDepth unrepaired ⟨List.replicate 8 false, [], .tag 1 0 false false []⟩ := (isXmlOld_unbounded _ rfl 8 [] _ rfl).1
-example : 4 ≤ pickleDepth unrepaired preNames 0 true (atTop (chainWithTrailingText 3)) :=
-  Nat.le_trans (sizeN_chainTT 3) (pickleLinkedOld_unbounded unrepaired rfl preNames 0 (atTop (chainWithTrailingText 3)))
+example : 4 ≤ pickleDepth unrepaired preNames 0 true initState (atTop (chainWithTrailingText 3)) :=
+  Nat.le_trans (sizeN_chainTT 3) (pickleLinkedOld_unbounded unrepaired rfl preNames 0 initState (atTop (chainWithTrailingText 3)))
 
 /-- `!=` stops at its first exit when adjacent levels differ in name: alternating names are bounded even in the
     unrepaired accounting (why the suite's single shape never showed the defect). -/
@@ -284,5 +462,43 @@ theorem eqDepth_differs_is_one (n n' a a' : Nat) (kx kx' v v' : Bool) (ks ks' : 
   simp [eqDepth, h]
 
 example : eqDepth (.tag 1 0 true false [.tag 2 0 true false [], .str 2]) (.tag 2 0 true false [.tag 1 0 true false [], .str 2]) = 1 := by decide
+
+/-! ## 9. the shipped tables and the interpreter's limit (generated on every run from the live objects) -/
+
+/-- the tables of the live `HTMLParserTreeBuilder()` -/
+def shippedNames : Names := { isPre := BS.Gen.c11PreserveCodes.contains, isSc := BS.Gen.c11ContainerCodes.contains }
+
+/-- With the shipped tables no name is both whitespace-preserving and a string container (over the WHOLE generated
+    tables) — which is why a coupling of the two pops in `popTag` is invisible in the default configuration, and why
+    the harness also parses under configurations where the tables overlap. The theorems above do not need this. -/
+theorem shipped_tables_disjoint : ∀ c ∈ BS.Gen.c11PreserveCodes, c ∉ BS.Gen.c11ContainerCodes := by decide
+
+/-- frames the caller may already have on the stack when it calls into bs4 -/
+def callerFrames : Nat := 100
+
+/-- Every bound proved above (the largest is 18) leaves room below the live `sys.getrecursionlimit()` even when the
+    caller is already 100 frames deep: an operation whose accounting is bounded by one of these constants cannot
+    raise RecursionError, however deep the document. -/
+theorem bounded_depth_is_below_the_recursion_limit (d : Nat) (h : d ≤ 18) : d + callerFrames < BS.Gen.c11RecursionLimit := by
+  have : 18 + callerFrames < BS.Gen.c11RecursionLimit := by decide
+  omega
+
+/-- e.g. parsing under the shipped tables, rendering, copying and pickling, each for every input -/
+theorem handled_beyond_the_recursion_limit (cfg : Cfg) (h1 : cfg.neIdentity = true) (h2 : cfg.isXmlLoop = true) (h3 : cfg.dropLinks = true)
+    (deep : Nat) (evs : List Ev) (isDoc lk : Bool) (l : Loc) :
+    parseDepth shippedNames deep evs + callerFrames < BS.Gen.c11RecursionLimit ∧
+    decodeDepth cfg l + callerFrames < BS.Gen.c11RecursionLimit ∧
+    copyDepth cfg isDoc l + callerFrames < BS.Gen.c11RecursionLimit ∧
+    pickleDepth cfg shippedNames deep lk (feedState shippedNames deep evs) l + callerFrames < BS.Gen.c11RecursionLimit := by
+  refine ⟨bounded_depth_is_below_the_recursion_limit _ ?_, bounded_depth_is_below_the_recursion_limit _ ?_,
+    bounded_depth_is_below_the_recursion_limit _ ?_, bounded_depth_is_below_the_recursion_limit _ ?_⟩
+  · have := depth_bounded_parse shippedNames rfl rfl deep evs; omega
+  · have := depth_bounded_decode cfg h1 h2 l; omega
+  · exact depth_bounded_copy cfg h1 h2 isDoc l
+  · have := depth_bounded_pickle cfg h1 h2 h3 shippedNames rfl rfl deep evs lk l; omega
+
+example : parseDepth shippedNames 7 [.open 6 false, .open 9 false, .open 12 false, .text, .close 6] = 14 := by decide
+example : copyDepth repaired true (atTop (chainWithTrailingText 40)) + callerFrames < BS.Gen.c11RecursionLimit :=
+  (handled_beyond_the_recursion_limit repaired rfl rfl rfl 0 [] true false _).2.2.1
 
 end BS.Props.C11
